@@ -1,7 +1,7 @@
 SPECIFICATION Spec
-CONSTANTS MaxChunks = 4
- ChunkSizes = {1, 2, 5}
- Caps = {1, 3, 100}
+CONSTANTS MaxChunks = 3
+ ChunkSizes = {0, 1, 2, 5}
+ Caps = {1, 3}
  Profiles = {"c:flush"}
 INVARIANT ExitZeroImpliesComplete
 CHECK_DEADLOCK FALSE
